@@ -24,12 +24,15 @@ type c19Step struct {
 	Ms   int    `json:"ms,omitempty"`   // sleep
 	N    int    `json:"n,omitempty"`    // heads: concurrent callers
 	Stag int    `json:"stag,omitempty"` // heads: callers start this many ms apart (all within the in-flight request)
-	Mode string `json:"mode,omitempty"` // fresh | same | lower | expired | error
+	Mode string `json:"mode,omitempty"` // fresh | same | lower | expired | expiring | error | hang
 }
 
 type c19P struct {
 	Empty bool      `json:"empty"` // start with an empty store
 	Steps []c19Step `json:"steps"`
+	// BTFirstMs > 0: the block time option is applied twice, first with this value (a default), then with the real
+	// one (the override); no explicit recency threshold. Must behave exactly like the real one alone.
+	BTFirstMs int `json:"bt_first_ms,omitempty"`
 }
 
 const (
@@ -63,6 +66,41 @@ func TestC19(t *testing.T) {
 					st := append([]c19Step{{Op: "mode", Mode: m}, {Op: "sleep", Ms: ms}, {Op: "start"}, {Op: "mode", Mode: "fresh"}, {Op: "sleep", Ms: 3500}}, tail...)
 					mon.Emit(r, "script", c19P{Empty: empty, Steps: st}, "script")
 				}
+			}
+		}
+	}
+	// the block time configured twice (default, then override)
+	for _, first := range []int{1, 3600000} {
+		for _, ms := range []int{500, 2900, 3100, 10000} {
+			for _, m := range []string{"fresh", "same"} {
+				for _, n := range []int{1, 5} {
+					tail := []c19Step{{Op: "head"}, {Op: "head"}}
+					if n > 1 {
+						tail = []c19Step{{Op: "heads", N: n}, {Op: "head"}}
+					}
+					st := append([]c19Step{{Op: "start"}, {Op: "mode", Mode: m}, {Op: "sleep", Ms: ms}}, tail...)
+					mon.Emit(r, "script", c19P{Steps: st, BTFirstMs: first}, "script")
+				}
+			}
+		}
+	}
+	// (re)initialisation with trusted peers whose head crosses the trusting period while the request is in flight
+	// (requested at x.97 s: 59.97 s old when asked for, 60.02 s old when it arrives)
+	for _, empty := range []bool{false, true} {
+		for _, ms := range []int{61970, 75970, 130970} {
+			mon.Emit(r, "script", c19P{Empty: empty, Steps: []c19Step{{Op: "mode", Mode: "expiring"}, {Op: "sleep", Ms: ms}, {Op: "start"}, {Op: "head"}}}, "script")
+			if !empty {
+				mon.Emit(r, "script", c19P{Steps: []c19Step{{Op: "start"}, {Op: "mode", Mode: "expiring"}, {Op: "sleep", Ms: ms}, {Op: "head"}, {Op: "heads", N: 3}, {Op: "mode", Mode: "fresh"}, {Op: "head"}}}, "script")
+			}
+		}
+	}
+	// a caller arriving at the very instant the shared request completes, while the head stays stale ("same"):
+	// request N ends, its waiters wake up, and request N+1 starts, all at one virtual instant
+	for rep := 0; rep < r.N(12, 300); rep++ {
+		for _, nst := range [][2]int{{2, 50}, {3, 25}, {6, 10}, {4, 50}, {5, 25}} {
+			for _, m := range []string{"same", "lower"} {
+				st := []c19Step{{Op: "start"}, {Op: "mode", Mode: m}, {Op: "sleep", Ms: 3100 + rep}, {Op: "heads", N: nst[0], Stag: nst[1]}, {Op: "heads", N: nst[0], Stag: nst[1]}, {Op: "head"}}
+				mon.Emit(r, "script", c19P{Steps: st}, "script")
 			}
 		}
 	}
@@ -137,6 +175,15 @@ func c19Run(c *mon.Case, p c19P) {
 					return chain.At(1), nil
 				}
 				return chain.At(t - back), nil
+			case "expiring":
+				// within the trusting period when asked for, beyond it when the answer arrives (for requests made
+				// less than HeadDelay before a full second; this function runs when the answer is due)
+				back := uint64(c19TP / c19BT)
+				t := tipNow()
+				if t <= back {
+					return chain.At(1), nil
+				}
+				return chain.At(t - back), nil
 			case "error":
 				return nil, c19Err
 			case "hang":
@@ -159,7 +206,11 @@ func c19Run(c *mon.Case, p c19P) {
 			}
 			return chain.At(h), nil, true
 		}
-		if err := w.newSyncer(hsync.WithBlockTime(c19BT), hsync.WithTrustingPeriod(c19TP), hsync.WithSyncFromHeight(1)); err != nil {
+		sopts := []hsync.Option{hsync.WithBlockTime(c19BT), hsync.WithTrustingPeriod(c19TP), hsync.WithSyncFromHeight(1)}
+		if p.BTFirstMs > 0 {
+			sopts = append([]hsync.Option{hsync.WithBlockTime(time.Duration(p.BTFirstMs) * time.Millisecond)}, sopts...)
+		}
+		if err := w.newSyncer(sopts...); err != nil {
 			c.T.Fatalf("syncer: %v", err)
 		}
 		// model of the subjective head: highest header accepted so far
@@ -290,6 +341,10 @@ func c19Run(c *mon.Case, p c19P) {
 					continue
 				}
 				h := rs.h
+				if h == nil {
+					c.Violation("zero-head-with-nil-error/"+sig, fmt.Sprintf("caller %d of %d got a zero header and a nil error", i, n), nil)
+					continue
+				}
 				if !chain.Canonical(h) {
 					c.Violation("head-returns-foreign-header/"+sig, fmt.Sprint(h), nil)
 					continue
